@@ -4,8 +4,9 @@
 EXTENDS Naturals, Integers, Sequences, FiniteSets, TLC, Json, IOUtils
 TraceLog == ndJsonDeserialize(IOEnv.TRACE)
 OutFile  == IOEnv.OUT
-VARIABLES l, rej, cur, skip, accepted, sent, stepPivs, nexec, nsteps, lastSaved, restartFloor
-vars == <<l, rej, cur, skip, accepted, sent, stepPivs, nexec, nsteps, lastSaved, restartFloor>>
+VARIABLES l, rej, cur, skip, accepted, sent, stepPivs, nexec, nsteps, lastSaved, restartFloor,
+          nonces     \* <<key, nonce>> -> what it protected: the AEAD seam of BOTH endpoints (requests and responses)
+vars == <<l, rej, cur, skip, accepted, sent, stepPivs, nexec, nsteps, lastSaved, restartFloor, nonces>>
 
 MaxOf(S) == CHOOSE x \in S : \A y \in S : y <= x
 Put(f, k, v) == [x \in (DOMAIN f) \cup {k} |-> IF x = k THEN v ELSE f[x]]
@@ -38,32 +39,41 @@ OnStep(e) ==
        ELSE [why |-> "", acc |-> accepted]
 
 Init == /\ l = 1 /\ rej = << >> /\ cur = -1 /\ skip = TRUE /\ accepted = {} /\ sent = [x \in {} |-> 0] /\ stepPivs = << >>
-        /\ nexec = 0 /\ nsteps = 0 /\ lastSaved = 0 /\ restartFloor = 0
+        /\ nexec = 0 /\ nsteps = 0 /\ lastSaved = 0 /\ restartFloor = 0 /\ nonces = [x \in {} |-> 0]
 Consume ==
   /\ l <= Len(TraceLog)
   /\ LET e == TraceLog[l] IN
      CASE e.e = "Reset" -> /\ cur' = e.id /\ skip' = FALSE /\ accepted' = {} /\ sent' = [x \in {-1} |-> e.win] /\ stepPivs' = << >>      \* (key -1 carries the replay window size of the execution)
-                           /\ nexec' = nexec + 1 /\ lastSaved' = 0 /\ restartFloor' = 0 /\ UNCHANGED <<rej, nsteps>>
+                           /\ nexec' = nexec + 1 /\ lastSaved' = 0 /\ restartFloor' = 0 /\ nonces' = [x \in {} |-> 0] /\ UNCHANGED <<rej, nsteps>>
        [] e.e = "Piv" /\ ~skip ->
             IF e.piv \in DOMAIN sent /\ sent[e.piv] # e.sig
             THEN /\ rej' = Append(rej, [id |-> cur, line |-> l, why |-> "C15:partial-iv-used-for-two-different-messages"]) /\ skip' = TRUE
-                 /\ UNCHANGED <<cur, accepted, sent, stepPivs, nexec, nsteps, lastSaved, restartFloor>>
+                 /\ UNCHANGED <<cur, accepted, sent, stepPivs, nexec, nsteps, lastSaved, restartFloor, nonces>>
             ELSE /\ sent' = Put(sent, e.piv, e.sig) /\ stepPivs' = IF e.piv \in DOMAIN sent THEN stepPivs ELSE Append(stepPivs, e.piv)
-                 /\ UNCHANGED <<rej, cur, skip, accepted, nexec, nsteps, lastSaved, restartFloor>>
-       [] e.e = "Save" /\ ~skip -> lastSaved' = e.v /\ UNCHANGED <<rej, cur, skip, accepted, sent, stepPivs, nexec, nsteps, restartFloor>>
-       [] e.e = "Restart" /\ ~skip -> restartFloor' = e.restart_from /\ UNCHANGED <<rej, cur, skip, accepted, sent, stepPivs, nexec, nsteps, lastSaved>>
+                 /\ UNCHANGED <<rej, cur, skip, accepted, nexec, nsteps, lastSaved, restartFloor, nonces>>
+       [] e.e = "Aead" /\ ~skip ->
+            \* RFC 8613 section 5.2 / 7.2.1: a (key, nonce) pair protects ONE message.  Protecting the same message again (same AAD and
+            \* plaintext, e.g. the identical answer to a retransmitted request) gives the same ciphertext and reveals nothing
+            LET k == <<e.key, e.nonce>> IN
+            IF k \in DOMAIN nonces /\ nonces[k] # e.msg
+            THEN /\ rej' = Append(rej, [id |-> cur, line |-> l, why |-> "C15:nonce-used-under-one-key-for-two-different-messages"]) /\ skip' = TRUE
+                 /\ UNCHANGED <<cur, accepted, sent, stepPivs, nexec, nsteps, lastSaved, restartFloor, nonces>>
+            ELSE /\ nonces' = Put(nonces, k, e.msg)
+                 /\ UNCHANGED <<rej, cur, skip, accepted, sent, stepPivs, nexec, nsteps, lastSaved, restartFloor>>
+       [] e.e = "Save" /\ ~skip -> lastSaved' = e.v /\ UNCHANGED <<rej, cur, skip, accepted, sent, stepPivs, nexec, nsteps, restartFloor, nonces>>
+       [] e.e = "Restart" /\ ~skip -> restartFloor' = e.restart_from /\ UNCHANGED <<rej, cur, skip, accepted, sent, stepPivs, nexec, nsteps, lastSaved, nonces>>
        [] e.e = "Step" /\ ~skip ->
             LET r == OnStep(e) IN
             /\ rej' = IF r.why = "" THEN rej ELSE Append(rej, [id |-> cur, line |-> l, why |-> r.why])
             /\ skip' = (r.why # "") /\ accepted' = r.acc /\ stepPivs' = << >> /\ nsteps' = nsteps + 1
-            /\ UNCHANGED <<cur, sent, nexec, lastSaved, restartFloor>>
+            /\ UNCHANGED <<cur, sent, nexec, lastSaved, restartFloor, nonces>>
        [] e.e = "Crash" -> /\ rej' = Append(rej, [id |-> cur, line |-> l, why |-> "C15:driver-crashed"]) /\ skip' = TRUE
-                           /\ UNCHANGED <<cur, accepted, sent, stepPivs, nexec, nsteps, lastSaved, restartFloor>>
-       [] OTHER -> UNCHANGED <<rej, cur, skip, accepted, sent, stepPivs, nexec, nsteps, lastSaved, restartFloor>>
+                           /\ UNCHANGED <<cur, accepted, sent, stepPivs, nexec, nsteps, lastSaved, restartFloor, nonces>>
+       [] OTHER -> UNCHANGED <<rej, cur, skip, accepted, sent, stepPivs, nexec, nsteps, lastSaved, restartFloor, nonces>>
   /\ l' = l + 1
 Finish == /\ l = Len(TraceLog) + 1
           /\ JsonSerialize(OutFile, [rejected |-> rej, executions |-> nexec, discarded |-> 0, known |-> {}, lines |-> Len(TraceLog), steps |-> nsteps])
-          /\ l' = l + 1 /\ UNCHANGED <<rej, cur, skip, accepted, sent, stepPivs, nexec, nsteps, lastSaved, restartFloor>>
+          /\ l' = l + 1 /\ UNCHANGED <<rej, cur, skip, accepted, sent, stepPivs, nexec, nsteps, lastSaved, restartFloor, nonces>>
 Next == Consume \/ Finish
 Spec == Init /\ [][Next]_vars
 =============================================================================
